@@ -516,7 +516,7 @@ Family(f) ==
            F({"a", "e_x", "if_t", "if_x1", "elif_f", "else", "end", "for_x", "for_e", "break", "continue"},
              4, {0}, {"xhtml_escape"}, {"all"}, {DefaultS}, <<>>)
       [] f = "while" ->     \* while with a counter (prefix: set k = 0)
-           F({"e_k", "while_k", "while_f", "set_kinc", "if_k1", "break", "continue", "else", "end"},
+           F({"e_k", "while_k", "set_kinc", "if_k1", "break", "continue", "else", "end"},
              4, {0}, {"xhtml_escape"}, {"all"}, {DefaultS}, <<"set_k0">>)
       [] f = "try" ->       \* try / except / else / finally around a raising call
            F({"a", "e_boom", "e_k", "try", "except", "except_zde", "except_ne", "else", "finally", "end"},
@@ -535,11 +535,15 @@ Family(f) ==
            F({"a", "sp", "nl", "tab", "sp_nl_sp", "a_sp_sp_a", "cmt", "esc_expr", "e_n", "ws_all", "ws_single", "ws_oneline"},
              3, {0}, {"xhtml_escape"}, {"default", "oneline"}, {DefaultS}, <<>>)
       [] f = "errors" ->    \* ill-formed templates and the line of the ParseError
-           F({"nl", "a", "if_t", "for_x", "try", "end", "else", "elif_t", "except", "finally", "break", "continue", "bogus", "bogus_arg",
-              "empty_block", "empty_block_tight", "e_empty", "e_empty_tight", "cmt_open", "open_expr", "open_block",
-              "apply_empty", "block_empty", "apply_wrap", "block_p", "ext_empty", "inc_empty", "set_empty", "ae_empty", "ws_bogus",
-              "if_t_ml", "e_s_ml", "end_tight"},
+           F({"nl", "a", "if_t", "for_x", "try", "end", "else", "except", "break", "bogus",
+              "empty_block", "e_empty", "cmt_open", "open_expr",
+              "apply_empty", "block_empty", "apply_wrap", "block_p", "ext_empty", "set_empty", "ae_empty", "ws_bogus",
+              "e_s_ml"},
              3, {0}, {"xhtml_escape"}, {"all"}, {DefaultS}, <<>>)
+      [] f = "errors2" ->   \* further spellings of ill-formed tags (tight, multi-line, unterminated block tag)
+           F({"nl", "a", "if_t", "for_x", "try", "end", "continue", "e_empty_tight", "empty_block_tight", "end_tight", "open_block",
+              "inc_empty", "e_s_ml", "close_expr", "close_block", "cmt_close", "elif_t", "finally", "bogus_arg", "if_t_ml"},
+             2, {0}, {"xhtml_escape"}, {"all"}, {DefaultS}, <<>>)
       [] f = "values" ->    \* C20: every value type / string through expression, raw, explicit escape under both settings
            F({"e_s", "e_s_tight", "e_b", "e_n", "e_o", "e_t", "e_esc_s", "raw_s", "raw_b", "raw_o", "ae_none", "ae_x", "ae_empty"},
              2, {0}, AEboth, {"all"}, AllS, <<>>)
